@@ -808,18 +808,24 @@ func arenaTrees(c *Ctx) {
 		}
 		var before []string
 		recPre(nodes[0], &before)
+		var wantPost []string
+		recPost(nodes[0], &wantPost)
 		var post []string
 		for x := range nodes[0].PostOrder() {
 			post = append(post, x.Name)
+			if len(post) > n+16 {
+				break
+			}
 		}
-		var wantPost []string
-		recPost(nodes[0], &wantPost)
 		var pre []string
 		for x := range nodes[0].PreOrder() {
 			pre = append(pre, x.Name)
+			if len(pre) > n+16 {
+				break
+			}
 		}
 		var after []string
-		recPre(nodes[0], &after)
+		recPreCapped(nodes[0], &after, n+16)
 		oracle := ""
 		if strings.Join(after, ",") != strings.Join(before, ",") {
 			oracle = "traversal modified the tree (child lists carved from one arena slice)"
